@@ -337,6 +337,9 @@ func (w *World) planInstance(k int) {
 		maxLen = 1
 	}
 	mainLen := 1 + rng.Intn(maxLen)
+	if maxLen == 127 && rng.Intn(4) != 0 {
+		mainLen = []int{99, 100, 101, 120, 126, 127}[rng.Intn(6)]
+	}
 	main := make([]*gpbft.TipSet, 0, mainLen)
 	ep := base.Epoch
 	for i := 0; i < mainLen; i++ {
@@ -355,6 +358,9 @@ func (w *World) planInstance(k int) {
 			if tail == 0 {
 				tail = 1
 			}
+		}
+		if d+tail > gpbft.ChainMaxLen-1 {
+			tail = gpbft.ChainMaxLen - 1 - d // the base takes one of the 128 slots
 		}
 		tips := append([]*gpbft.TipSet{}, main[:d]...)
 		e := base.Epoch
